@@ -79,6 +79,9 @@ class TabEnv(AbstractEnv):
         elif act_kind == "box":
             assert A == 2
             self.action_space = Box(-1.0, 1.0, shape=())
+        elif act_kind == "boxhalf":  # bounded on one side only: [-1, inf)
+            assert A == 2
+            self.action_space = Box(-1.0, jnp.inf, shape=())
         elif act_kind == "boxvec":
             assert A == 2
             self.action_space = Box(-1.0, 1.0, shape=(2,))
@@ -93,7 +96,7 @@ class TabEnv(AbstractEnv):
             self.observation_space = Discrete(S)
         elif obs_kind == "onehot":
             self.observation_space = Box(0.0, 1.0, shape=(S,))
-        elif obs_kind == "dict":
+        elif obs_kind in ("dict", "plaindict"):
             self.observation_space = Dict({"pos": Box(0.0, 1.0, shape=(S,)), "idx": Discrete(S)})
         else:
             raise ValueError(obs_kind)
@@ -103,7 +106,7 @@ class TabEnv(AbstractEnv):
         k = self.act_kind
         if k == "discrete":
             return jnp.asarray(action, dtype=int)
-        if k == "box":
+        if k in ("box", "boxhalf"):
             return (jnp.asarray(action) >= 0).astype(int)
         if k == "boxvec":
             return (jnp.asarray(action)[0] >= 0).astype(int)
@@ -116,7 +119,7 @@ class TabEnv(AbstractEnv):
         a = jnp.asarray(action, dtype=float)
         if k == "discrete":
             return jnp.asarray(0.0)
-        if k == "box":
+        if k in ("box", "boxhalf"):
             return a / 16.0
         if k == "boxvec":
             return a[0] / 16.0 + a[1] / 64.0
@@ -136,10 +139,10 @@ class TabEnv(AbstractEnv):
     def transition(self, state, action, *, key):
         a = self.action_index(action)
         nxt = self.T[state.s, a]
-        if self.act_kind in ("box", "boxvec"):
+        if self.act_kind in ("box", "boxvec", "boxhalf"):
             # an out-of-bounds action must never reach the environment: if it does, the dynamics
             # visibly derail (successor shifted by one), so "driven with the clipped action" is observable
-            oob = jnp.any(jnp.abs(jnp.asarray(action)) > 1.0)
+            oob = (jnp.asarray(action) < -1.0) if self.act_kind == "boxhalf" else jnp.any(jnp.abs(jnp.asarray(action)) > 1.0)
             nxt = jnp.where(oob, (nxt + 1) % self.S, nxt)
         return TabState(nxt, state.t + 1)
 
@@ -149,6 +152,10 @@ class TabEnv(AbstractEnv):
         onehot = (jnp.arange(self.S) == state.s).astype(float)
         if self.obs_kind == "onehot":
             return onehot
+        if self.obs_kind == "plaindict":
+            # a plain dict whose keys are declared in non-alphabetical order (as Gymnax environments return): JAX re-builds plain
+            # dicts with SORTED keys whenever they cross a transformation, an OrderedDict keeps its order
+            return {"pos": onehot, "idx": state.s}
         from collections import OrderedDict
 
         return OrderedDict({"pos": onehot, "idx": state.s})
